@@ -13,6 +13,7 @@ def main():
     ap.add_argument("--jobs", type=int)
     ap.add_argument("--list", action="store_true")
     a = ap.parse_args()
+    os.environ["VERIF_TIER"] = a.tier
     seed = int(os.environ.get("VERIF_SEED", "0") or 0)
     try:
         mod = importlib.import_module("checks." + a.prop.lower())
